@@ -497,16 +497,24 @@ def _layout():
   fld = st.tuples(st.booleans(), st.booleans())  # (static?, default?)
   return st.tuples(st.lists(fld, min_size=1, max_size=5),
                    st.sampled_from(['dataclass', 'pytreenode', 'kwonly']),
-                   st.integers(0, 10**6))
+                   st.integers(0, 10**6),
+                   # user metadata given to struct.field: none, a fresh dict
+                   # per field, or one dict object shared by all fields
+                   st.sampled_from(['none', 'none', 'fresh', 'shared']))
 
 
 _CLS_CACHE = {}
 
 
-def make_class(fields, style):
-  key = (tuple(map(tuple, fields)), style)
+def make_class(fields, style, meta='none'):
+  key = (tuple(map(tuple, fields)), style, meta)
   if key in _CLS_CACHE:
     return _CLS_CACHE[key]
+  shared_meta = {'unit': 'metre'}
+  def md(name):
+    if meta == 'none':
+      return {}
+    return {'metadata': shared_meta if meta == 'shared' else {'unit': name}}
   # defaults only on a suffix unless kw_only
   seen_default = False
   ann, ns = {}, {}
@@ -519,10 +527,12 @@ def make_class(fields, style):
       default = default and (seen_default or all(d for _, d in fields[i:]))
       seen_default = seen_default or default
     if static:
-      ns[name] = (struct.field(pytree_node=False, default=7 + i) if default
-                  else struct.field(pytree_node=False))
+      ns[name] = (struct.field(pytree_node=False, default=7 + i, **md(name))
+                  if default else struct.field(pytree_node=False, **md(name)))
     elif default:
-      ns[name] = struct.field(default=1.5 + i)
+      ns[name] = struct.field(default=1.5 + i, **md(name))
+    elif meta != 'none':
+      ns[name] = struct.field(**md(name))
   ns['__annotations__'] = ann
   if style == 'pytreenode':
     cls = type('PNode', (struct.PyTreeNode,), ns)
@@ -537,15 +547,24 @@ def make_class(fields, style):
 @clause('struct_dataclass', strategy=_layout, quick=250, thorough=8000,
         shrink=False,
         rule='random field layouts (1-5 fields, each data or pytree_node='
-        'False, optional defaults, struct.dataclass / PyTreeNode / kw_only): '
+        'False, optional defaults, user metadata (none / per field / one '
+        'dict shared by all fields), struct.dataclass / PyTreeNode / kw_only): '
         'frozen, replace, leaves == data fields in order, static fields in '
         'treedef, jit retrace iff static changes, tree_map/jit/vmap/grad '
         'rebuild the class; non-trivial = >=1 static and >=1 data field')
 def struct_dataclass(case, ctx):
-  fields, style, seed = case
+  fields, style, seed, *rest = case
+  meta = rest[0] if rest else 'none'
   fields = [tuple(f) for f in fields]
   with sut('struct.dataclass'):
-    cls = make_class(fields, style)
+    cls = make_class(fields, style, meta)
+  if meta != 'none':
+    for f in dataclasses.fields(cls):
+      if f.name.startswith('f'):
+        require(f.metadata.get('unit') == ('metre' if meta == 'shared'
+                                           else f.name),
+                lambda: f'user metadata of field {f.name} lost: '
+                f'{dict(f.metadata)}')
   names = [f'f{i}' for i in range(len(fields))]
   data = [n for n, (s, _) in zip(names, fields) if not s]
   static = [n for n, (s, _) in zip(names, fields) if s]
